@@ -10,6 +10,7 @@ import (
 	"github.com/biscuit-auth/biscuit-go/v2"
 	"github.com/biscuit-auth/biscuit-go/v2/datalog"
 	"github.com/biscuit-auth/biscuit-go/v2/pb"
+	"google.golang.org/protobuf/proto"
 )
 
 func init() {
@@ -760,9 +761,18 @@ func runC18(c *Ctx) {
 		if r.Chance(1, 3) {
 			panel = []AuthOp{{K: "query", Rule: g.rule()}, {K: "authorize"}}
 		}
-		restored := AuthCase{MaxFacts: 1000, MaxIter: 100, Ctor: "for", Tokens: [][]Block{t0, t1}, Ops: append(append(append([]AuthOp{}, content...), AuthOp{K: "saveload", Tok: target}), panel...)}
+		// limits given at creation (often not the defaults): the restored authorizer is created
+		// with the same limits and must evaluate under them
+		mf, mi := 1000, 100
+		switch r.Intn(4) {
+		case 0:
+			mf = 2 + r.Intn(8)
+		case 1:
+			mi = 1 + r.Intn(2)
+		}
+		restored := AuthCase{MaxFacts: mf, MaxIter: mi, Ctor: "for", Tokens: [][]Block{t0, t1}, Ops: append(append(append([]AuthOp{}, content...), AuthOp{K: "saveload", Tok: target}), panel...)}
 		toks := [][]Block{t0, t1}
-		original := AuthCase{MaxFacts: 1000, MaxIter: 100, Ctor: "for", Tokens: [][]Block{toks[target]}, Ops: append(append([]AuthOp{}, content...), panel...)}
+		original := AuthCase{MaxFacts: mf, MaxIter: mi, Ctor: "for", Tokens: [][]Block{toks[target]}, Ops: append(append([]AuthOp{}, content...), panel...)}
 		resR, sxR := emitAuth(c, "restored", restored)
 		resO, sxO := emitAuth(c, "original", original)
 		if resR == "environment-timeout" || resO == "environment-timeout" {
@@ -797,9 +807,11 @@ func runC18(c *Ctx) {
 					c.Case("SNAP", c.NewID("snap"), sxS, resS)
 					c.Count("snap:" + strings.SplitN(resS, " ", 2)[0])
 					// malformed snapshots: must be an error, never a panic
-					for m := 0; m < 3; m++ {
+					for m := 0; m < 4; m++ {
 						bad := append([]byte{}, data...)
-						switch r.Intn(3) {
+						switch r.Intn(4) {
+						case 3:
+							bad = snapshotMissingField(data, r)
 						case 0:
 							if len(bad) > 0 {
 								bad[r.Intn(len(bad))] ^= 1 << uint(r.Intn(8))
@@ -920,3 +932,38 @@ func undeclaredSymbols(c *Ctx) {
 }
 
 func u64p(v uint64) *uint64 { return &v }
+
+
+// snapshotMissingField: a well-formed snapshot from which one mandatory field has been
+// removed (a policy's kind, a fact's predicate, a predicate's name, a rule's / query's head):
+// syntactically valid protobuf that only the required-field check stands against.
+func snapshotMissingField(data []byte, r *Rng) []byte {
+	var m pb.AuthorizerPolicies
+	if err := (proto.UnmarshalOptions{AllowPartial: true}).Unmarshal(data, &m); err != nil {
+		return []byte{0x10, 0x03, 0x32, 0x00}
+	}
+	three := uint32(3)
+	switch r.Intn(7) {
+	case 0:
+		m.Policies = append(m.Policies, &pb.Policy{}) // no kind, no queries
+	case 1:
+		if len(m.Policies) > 0 {
+			m.Policies[r.Intn(len(m.Policies))].Kind = nil
+		} else {
+			m.Policies = []*pb.Policy{{}}
+		}
+	case 2:
+		m.Facts = append(m.Facts, &pb.FactV2{}) // no predicate
+	case 3:
+		m.Facts = append(m.Facts, &pb.FactV2{Predicate: &pb.PredicateV2{}}) // no name
+	case 4:
+		m.Rules = append(m.Rules, &pb.RuleV2{}) // no head
+	case 5:
+		m.Checks = append(m.Checks, &pb.CheckV2{Queries: []*pb.RuleV2{{}}})
+	default:
+		k := pb.Policy_Allow
+		m.Policies = append(m.Policies, &pb.Policy{Kind: &k, Queries: []*pb.RuleV2{{}}})
+	}
+	m.Version = &three
+	return mustMarshal(&m)
+}
